@@ -30,7 +30,12 @@ export function hostilePool() {
     for (let i = 0; i < 200; i++) v = { a: 1, next: v };
     return v;
   })();
+  const cyclic = { a: "a" };
+  cyclic.self = cyclic;
+  const cyclicArr = [1];
+  cyclicArr.push(cyclicArr);
   return [
+    cyclic, cyclicArr, new Map([[1n, 2n]]), new Set([1n]), { a: 1n },
     undefined, null, true, false, 0, 1, -1, NaN, "", "a", [], {}, [null], [undefined], { a: undefined },
     new Date(0), new Date(NaN), new Map(), new Set(), new Map([["a", 1]]), new Set(["a"]), 1n,
     new Uint8Array(2), new Float64Array(1), new BigInt64Array(1), new Int8Array(0),
